@@ -103,6 +103,8 @@ int main() {
         chai.add(fun(&Holder::inner), "inner");
         chai.add(fun([](int v) { return Holder(v); }), "make_holder");
         chai.add(fun([](Holder &h) -> T & { return h.inner; }), "inner_of");
+        chai.add(fun([](T &t) -> T & { return t; }), "same");                                             // a reference to its argument
+        chai.add(fun([](const T &t) -> const T & { return t; }), "same_c");
         chai.add(fun([](int k) { g_cps += std::to_string(k) + ":" + ids(R.live) + ";"; }), "cp");
         chai.add(fun([](const Boxed_Value &) {}), "pr");
         chai.add(fun([]() { if (g_boom++ == g_boom_at) { throw std::runtime_error("boom"); } return 0; }), "boom");
